@@ -393,7 +393,10 @@ def link(state, address: int) -> bytes:
 MAX_INCLUDE_DEPTH = 32
 
 
-@metacommand(size=0)
+# No 'size=0' here (unlike the directives around): an included file contributes
+# its code, and a size announced as zero made every later address too small
+# when the path could only be computed after later symbols were defined
+@metacommand
 def include(state, included_file_path: str):
     include_path = devices.resolve_relative_path(included_file_path, state["filename"])
 
